@@ -1045,7 +1045,8 @@ func c13bGenCase(t *rapid.T) c13bCase {
 	c := c13bCase{
 		N:       n,
 		Rot:     rapid.IntRange(0, 3).Draw(t, "rot"),
-		Foreign: rapid.IntRange(0, 5).Draw(t, "foreign"),
+		// mostly the kinds whose keys partly coincide position by position with the pool's
+		Foreign: rapid.SampledFrom([]int{3, 5, 3, 5, 4, 0, 1, 2}).Draw(t, "foreign"),
 	}
 	c.Ops = rapid.SliceOfN(rapid.Custom(func(t *rapid.T) c13bOp { return c13bGenOp(t, n) }), 3, 16).Draw(t, "ops")
 	return c
